@@ -304,7 +304,9 @@ def oracle(case):
     s_line, s_clone = safe_str(line), safe_str(c)
     if s_line != s_before:
         F.append("clone-changes-original: %s: %r became %r" % (what, s_before, s_line))
-    if s_clone != s_line:
+    if s_clone.startswith("<<str raised") and not s_line.startswith("<<str raised"):
+        F.append("clone-unwritable: %s: str(clone) raises (%s), original is %r" % (what, s_clone, s_line))
+    elif s_clone != s_line:
         F.append("clone-written-form-differs: %s: original %r clone %r" % (what, s_line, s_clone))
     try:
         if not (c == line):
